@@ -1892,6 +1892,9 @@ class InCaptionPhase(Phase):
     def processCharacters(self, token):
         return self.parser.phases["inBody"].processCharacters(token)
 
+    def processSpaceCharacters(self, token):
+        return self.parser.phases["inBody"].processSpaceCharacters(token)
+
     def startTagTableElement(self, token):
         self.parser.parseError()
         # XXX Have to duplicate logic here to find out if the tag is ignored
@@ -2223,6 +2226,9 @@ class InCellPhase(Phase):
     def processCharacters(self, token):
         return self.parser.phases["inBody"].processCharacters(token)
 
+    def processSpaceCharacters(self, token):
+        return self.parser.phases["inBody"].processSpaceCharacters(token)
+
     def startTagTableOther(self, token):
         if (self.tree.elementInScope("td", variant="table") or
                 self.tree.elementInScope("th", variant="table")):
@@ -2547,6 +2553,9 @@ class AfterBodyPhase(Phase):
         # This is needed because data is to be appended to the <html> element
         # here and not to whatever is currently open.
         self.tree.insertComment(token, self.tree.openElements[0])
+
+    def processSpaceCharacters(self, token):
+        return self.parser.phases["inBody"].processSpaceCharacters(token)
 
     def processCharacters(self, token):
         self.parser.parseError("unexpected-char-after-body")
